@@ -8,7 +8,7 @@ PID = "C14"
 
 
 def label_map(prog, scheme):
-    labs = sorted({s["lab"] for s in prog if s["lab"]})
+    labs = sorted({x for s in prog if s["lab"] for x in s["lab"].split("+")})
     if scheme == "same":
         return {}
     if scheme == "suffix":
